@@ -143,14 +143,22 @@ class C09Episode(Episode):
             if not reaps:
                 # did a supervisor signal land on the already dead worker
                 # (race: chosen for termination, died before the signal)?
-                sd = any(e['pid'] == pid and e['effect'] == 'zombie'
-                         for e in k.signals)
+                zs = [e for e in k.signals
+                      if e['pid'] == pid and e['effect'] == 'zombie']
+                sd = bool(zs)
+                # ... inside the very loop step in which it died (between
+                # the supervisor's look at its status and the signal), or
+                # had it been dead for longer when it was signalled?
+                p_ = k.procs.get(pid)
+                same = bool(zs) and p_ is not None and \
+                    p_.death_time is not None and \
+                    zs[0].get('step') == getattr(p_, 'death_step', None)
                 self.viol('missing_reap_event',
                           'worker %s died by itself/externally (wait status '
                           '%s) while its watcher was active; no reap event '
                           'after a periodic check' % (pid, st), once=pid,
                           removed_by=self.removal_site(pid),
-                          signalled_dead=sd)
+                          signalled_dead=sd, same_step=same)
             elif reaps[0][2].get('exit_code') != want:
                 self.viol('wrong_exit_code',
                           'worker %s wait status %s: reap event says '
